@@ -117,6 +117,25 @@ def run_go_part(prop, part, tier, seed, builddir, reportdir):
     hang_is_violation, env, harness (list of harness dirs to overlay)."""
     res = PartResult(part["name"])
     overlay = build_overlay(builddir, part.get("harness"))
+    binenv = {}
+    if part.get("binary"):
+        # Whole-binary tier: build AdGuardHome from the working tree (with the
+        # overlay, so that tagged instrumentation files are included).
+        b = part["binary"]
+        out = os.path.join(builddir, "AdGuardHome" + (".race" if b.get("race") else ""))
+        if not os.path.exists(out):
+            bcmd = ["go", "build", "-overlay=" + overlay, "-tags", "verif", "-o", out]
+            if b.get("race"):
+                bcmd.insert(2, "-race")
+            bcmd.append(".")
+            bp = subprocess.run(bcmd, cwd=REPO, env=go_env(), stdout=subprocess.PIPE,
+                                stderr=subprocess.STDOUT, text=True)
+            if bp.returncode != 0:
+                res.inconclusive.append("binary does not build: " + bp.stdout[-800:])
+                return res
+        binenv["VERIF_AGH_BIN"] = out
+        binenv["VERIF_BIN_GORACE"] = "halt_on_error=0 log_path=%s" % os.path.join(
+            reportdir, "race.%s.bin" % part["name"])
     cmd = ["go", "test", "-overlay=" + overlay, "-tags", "verif", "-vet=off",
            "-count=1", "-run", part["run"]]
     if part.get("race"):
@@ -137,6 +156,7 @@ def run_go_part(prop, part, tier, seed, builddir, reportdir):
     if part.get("race"):
         extra["GORACE"] = "halt_on_error=0 log_path=%s" % os.path.join(
             reportdir, "race.%s" % part["name"])
+    extra.update(binenv)
     extra.update(part.get("env", {}))
     logp = os.path.join(builddir, "%s.%s.log" % (prop, part["name"]))
     t0 = time.time()
@@ -183,7 +203,7 @@ def run_go_part(prop, part, tier, seed, builddir, reportdir):
         # handled from the race logs; anything else is noted.
         pass
     # Race logs.
-    if part.get("race"):
+    if part.get("race") or (part.get("binary") or {}).get("race"):
         from racelog import parse_race_logs
         races = parse_race_logs(glob.glob(os.path.join(reportdir, "race.%s.*" % part["name"])), res.log)
         res.races = races
